@@ -274,6 +274,10 @@ def unionOf (s : Json) : UnionS :=
 structure OccIn where
   occ : Occ
   schema : Json
+  holder : List Char := []
+  prop : List Char := []
+  /-- `some w`: an array-item site; `w` = singular form of the member name (cruet::to_singular, given by the case) -/
+  single : Option (List Char) := none
 
 def occOf (o : Json) : Except String OccIn := do
   let site ← field o "site"
@@ -288,7 +292,29 @@ def occOf (o : Json) : Except String OccIn := do
   let ord := match site.getObjVal? "holder", site.getObjVal? "prop" with
     | .ok (.str h), .ok (.str p) => (h ++ "." ++ p).toList
     | _, _ => []
-  pure { occ := { named, kind, ord, canon := canonString (← toJ value), ekey, refs := if kind == .union then refsOf u else [], disc := u.disc }, schema }
+  let holder := match site.getObjVal? "holder" with | .ok (.str h) => h.toList | _ => []
+  let prop := match site.getObjVal? "prop" with | .ok (.str h) => h.toList | _ => []
+  let single := match site.getObjVal? "kind", site.getObjVal? "single" with
+    | .ok (.str "items"), .ok (.str w) => some w.toList
+    | .ok (.str "items"), _ => some prop
+    | _, _ => none
+  pure { occ := { named, kind, ord, canon := canonString (← toJ value), ekey, refs := if kind == .union then refsOf u else [], disc := u.disc }, schema, holder, prop, single }
+
+/-- F13-6: the item type of an array member `H.ps` is named `H` + Pascal(singular `ps`) at run time; an inline
+enum at the sibling member `H.p` with `p` = that singular has the same pre-computed name and is given it
+unconditionally (`prepare_registration`, enum branch) - two different value sets, one type -/
+def nameClash (a b : OccIn) : Bool :=
+  -- `it`: the array-item site (any kind of run-time named type), `pr`: the sibling member holding an inline ENUM
+  let dir (it pr : OccIn) : Bool :=
+    it.single.isSome && pr.single.isNone && it.single == some pr.prop && pr.occ.kind == .enum &&
+    (it.occ.kind != .enum || it.occ.ekey != pr.occ.ekey)
+  a.occ.named.isNone && b.occ.named.isNone && a.holder == b.holder && (dir a b || dir b a)
+
+/-- reflexive-transitive closure of a pair relation on `0..n`, as component labels -/
+def components (n : Nat) (rel : Nat → Nat → Bool) : List Nat :=
+  let step (lab : List Nat) : List Nat :=
+    (List.range n).map fun i => ((List.range n).filter fun k => rel i k || rel k i || i == k).foldl (fun m k => min m (lab.getD k k)) (lab.getD i i)
+  (List.range n).foldl (fun lab _ => step lab) (List.range n)
 
 def tokJson : Tok → Json
   | .named n => Json.mkObj [("named", str n)]
@@ -365,6 +391,19 @@ def shareSitesH : Handler := fun req => do
     | none => []
   let model := Json.mkObj [("share", patJson mPat), ("share_plus", patJson mPatP), ("on_extra", Json.arr (mOnX.map fun (i : Nat) => (i : Json)).toArray)]
   let implView := Json.mkObj [("share", patJson iPat), ("share_plus", patJson iPatP), ("on_extra", Json.arr (iOnX.map fun (i : Nat) => (i : Json)).toArray)]
+  -- F13-6 name clash: which of the clashing types wins depends on generation order and on the pre-scan's choice of
+  -- name, which the token model does not carry: with a clash pair present the implementation's pattern has to lie
+  -- between the token pattern and its closure under the clash pairs
+  let clash (i k : Nat) : Bool := match occs[i]?, occs[k]? with | some a, some b => nameClash a b | _, _ => false
+  let hasClash := (idxPairs n).any fun (i, k) => clash i k
+  let between (tk : List Tok) (ip : List (Nat × Nat)) : Bool :=
+    let lab := components n fun i k => clash i k || (match tk[i]?, tk[k]? with | some a, some b => a == b | _, _ => false)
+    let mp := eqPattern tk
+    mp.all (fun p => ip.contains p) && ip.all fun (i, k) => lab[i]? == lab[k]?
+  let matchView := model == implView || (hasClash && mOnX == iOnX && between toks iPat && (extra.isNone || between toksP iPatP))
+  /- a site is touched by the clash when its token class contains a member of a clash pair -/
+  let touched (tk : List Tok) (i : Nat) : Bool :=
+    (List.range n).any fun j => (tk[j]? == tk[i]?) && (List.range n).any fun k => clash j k || clash k j
   let siteErr (run : Json) (i : Nat) : Bool := match run.getObjVal? "sites" with
     | .ok (.arr a) => match a[i]? with | some s => (s.getObjVal? "err").toOption.isSome | none => true
     | _ => true
@@ -391,13 +430,14 @@ def shareSitesH : Handler := fun req => do
           match occsR[r]? with
           | some orp =>
             let cs := if r != i then classesFor oi.schema orp.schema else []
+            let cs := if cs.isEmpty && touched toksR i then ["KnownInlineEnumNameClash"] else cs
             if !cs.isEmpty then attributed := attributed + 1; known := cs ++ known
-          | none => pure ()
-        | _, _ => pure ()
+          | none => if touched toksR i then attributed := attributed + 1; known := "KnownInlineEnumNameClash" :: known
+        | _, _ => if touched toksR i then attributed := attributed + 1; known := "KnownInlineEnumNameClash" :: known
   let ok := bad.isEmpty && errs.isEmpty
   let judge := verdict ok (if !errs.isEmpty then [] else if bad.length == attributed then known.eraseDups else []) (String.intercalate "; " (errs ++ bad))
   let branch := if !bad.isEmpty then "unsound-share" else if !mPat.isEmpty || !mOnX.isEmpty then "share" else "distinct"
-  pure (Json.mkObj [("model", model), ("match", model == implView), ("judge", judge), ("branch", Json.str branch), ("impl_view", implView),
+  pure (Json.mkObj [("model", model), ("match", matchView), ("judge", judge), ("branch", Json.str branch), ("impl_view", implView),
     ("tokens", Json.arr (toks.map tokJson).toArray)])
 
 /-! #### share.resp (response enums merged by signature) -/
